@@ -29,7 +29,7 @@ def tspec(draw, dom=None, cod=None):
     return {"dom": dom, "cod": cod, "vals": vals,
             "layout": draw(st.sampled_from(
                 ["shaped", "shaped", "list", "fortran", "matrix",
-                 "matrix-fortran", "view"]))}
+                 "matrix-fortran", "view", "object"]))}
 
 
 def build(t):
@@ -43,6 +43,9 @@ def build(t):
     layout = t.get("layout", "shaped")
     if layout == "list":
         arr = arr.flatten().tolist()
+    elif layout == "object":   # Python numbers in an object array
+        arr = np.array(arr.flatten().tolist(), dtype=object).reshape(
+            arr.shape)
     elif layout == "fortran":
         arr = np.asfortranarray(arr)
     elif layout in ("matrix", "matrix-fortran", "view"):
@@ -184,6 +187,15 @@ def check_misc(case):
     same(a + b, A + B, "addition")
     same(a.conjugate(), A.conj(), "conjugate")
     same(Tensor.zeros(a.dom, a.cod), np.zeros_like(A), "zeros")
+    # the same tensor as a box of a diagram: its dagger evaluates to the
+    # conjugate transpose (several wires on either side included)
+    from discopy import tensor
+    shape = [d for d in sa["dom"] + sa["cod"]]
+    box = tensor.Box("f", Dim(*sa["dom"]), Dim(*sa["cod"]),
+                     specs.cplx(sa["vals"], shape))
+    same(box.eval(), A, "box-eval")
+    same(box.dagger().eval(), A.conj().T, "box-dagger-eval")
+    same((box >> box.dagger()).eval(), A @ A.conj().T, "box-then-dagger")
     bad = build(case["bad"])
     if list(a.cod) != list(bad.dom):
         common.expect_raises(lambda: a >> bad, (AxiomError, Exception),
@@ -195,7 +207,7 @@ def check_misc(case):
 core.register("C08", [
     Facet("laws", law_cases, check_laws, n_quick=4000, shards_quick=8,
           rule=RULE),
-    Facet("misc", misc_cases, check_misc, n_quick=400, shards_quick=1,
+    Facet("misc", misc_cases, check_misc, n_quick=1200, shards_quick=2,
           rule="sums, conjugate, zeros and refusal of ill-typed requests"),
 ], rule=RULE, assumptions=[
     "Gaussian-integer entries keep every contraction exact: array_equal, "
